@@ -20,6 +20,7 @@ impl TraceRoot for Vm {
     self.files.trace();
     self.packages.trace();
     self.module_cache.trace();
+    self.inline_cache.iter().for_each(|cache| cache.trace());
     self.capture_stub.trace();
 
     for stub in &self.native_fun_stubs {
@@ -34,6 +35,7 @@ impl TraceRoot for Vm {
     self.files.trace_debug(log);
     self.packages.trace_debug(log);
     self.module_cache.trace_debug(log);
+    self.inline_cache.iter().for_each(|cache| cache.trace_debug(log));
     self.capture_stub.trace_debug(log);
 
     for stub in &self.native_fun_stubs {
